@@ -139,4 +139,3 @@ func cmdList(args []string) {
 	}
 }
 
-func cmdCheck(args []string) int { return 2 }
